@@ -102,7 +102,7 @@ CHECKS = {
             dict(name="route", run="^TestRoute$", quick=500, thorough=4000, shards=8),
             dict(name="addmount", run="^TestAddMount$", quick=300, thorough=3000, shards=2),
             dict(name="concurrent", run="^TestConcurrentAddMount$", quick=60, thorough=400, shards=2),
-            dict(name="concurrent", run="^TestConcurrentAddMount$", thorough=200, shards=1, race=True, tiers=("thorough",)),
+            dict(name="concurrent-race", run="^TestConcurrentAddMount$", thorough=200, shards=1, race=True, tiers=("thorough",), env={"VERIF_LEG_SUFFIX": "-race"}),
         ],
     ),
     "C08": dict(
@@ -204,7 +204,7 @@ CHECKS = {
         legs=[
             dict(name="faults", run="^TestFaults$", quick=120, thorough=1200, shards=4),
             dict(name="concurrent", run="^TestConcurrent$", quick=60, thorough=600, shards=4),
-            dict(name="concurrent", run="^TestConcurrent$", thorough=150, shards=1, race=True, tiers=("thorough",), env={"VERIF_LEG_SUFFIX": "-race"}),
+            dict(name="concurrent-race", run="^TestConcurrent$", thorough=150, shards=1, race=True, tiers=("thorough",), env={"VERIF_LEG_SUFFIX": "-race"}),
         ],
     ),
     "C12": dict(
@@ -217,7 +217,7 @@ CHECKS = {
         assumptions=["//go:debug tarinsecurepath=1 so that escaping names reach hackpadfs", "gate quiescence is detected by a short settle (affects which schedule is explored, never the verdict)", "entry names are distinct after normalisation"],
         legs=[
             dict(name="tree", run="^TestTree$", quick=150, thorough=1200, shards=8, timeout_quick=400),
-            dict(name="many", run="^TestManyEntries$", quick=6, thorough=60, shards=4, timeout_quick=400),
+            dict(name="many", run="^TestManyEntries$", quick=10, thorough=80, shards=4, timeout_quick=400),
             dict(name="escape", run="^TestEscape$", quick=80, thorough=800, shards=4),
         ],
     ),
@@ -253,7 +253,7 @@ CHECKS = {
             dict(name="dfs", run="^TestSerializableDFS$", quick=60, thorough=800, shards=8),
             dict(name="independence", run="^TestIndependence$", quick=40, thorough=500, shards=4),
             dict(name="free", run="^TestFreeRunning$", quick=80, thorough=800, shards=2),
-            dict(name="free", run="^TestFreeRunning$", thorough=300, shards=2, race=True, tiers=("thorough",), env={"VERIF_LEG_SUFFIX": "-race"}),
+            dict(name="free-race", run="^TestFreeRunning$", quick=120, quick_shards=4, thorough=300, shards=8, race=True, env={"VERIF_LEG_SUFFIX": "-race"}),
         ],
     ),
     "C09": dict(
@@ -276,13 +276,12 @@ CHECKS = {
               "kinds: silently do nothing, apply twice, drop the entry, leave the source behind, flipped permission bits, wrong size, wrong name, wrong bytes, wrong n, early EOF, wrong error kind, wrong error path, ignore O_TRUNC, drop/duplicate/mis-kind a directory entry; triggers: always, k-th call (1..3), names containing foo / bar. "
               "Each evaluation re-executes the compiled test binary running fstest.FS + fstest.File against the deviant. The wrapper also RECORDS every call the suite makes and what it got back (error class and paths, n, bytes, FileInfo, entries), per scenario; the same recorder runs on the reference. "
               "A deviant is non-trivial iff some scenario's recorded results differ from the reference's (as multisets; scenarios whose goroutines / parallel sub-tests share one FS only count for triggers that do not depend on a call count); then the suite must exit != 0. "
-              "catalogue leg (quick): every (operation, kind) with trigger 'always' (69 deviants). grammar leg (thorough): the whole finite grammar (414 deviants). reference leg: the suite passes on mem.FS and os.FS at -test.parallel/GOMAXPROCS in {1,16} x {1,16}, repeatedly, with identical recorded behaviour. "
+              "grammar leg (both tiers, it takes seconds): the whole finite grammar (414 deviants), enumerated completely. reference leg: the suite passes on mem.FS and os.FS at -test.parallel/GOMAXPROCS in {1,16} x {1,16}, repeatedly, with identical recorded behaviour. "
               "non-trivial & distinct = deviants whose recorded behaviour differs"),
         assumptions=["substituting ErrNotImplemented is not a deviation (the suite skips what a file system declares unsupported)", "a deviant whose effect is never observed through the calls the suite makes is counted as trivial, not as a survivor"],
         legs=[
             dict(name="reference", run="^TestReference$"),
-            dict(name="catalogue", run="^TestCatalogue$", tiers=("quick",)),
-            dict(name="grammar", run="^TestGrammar$", tiers=("thorough",)),
+            dict(name="grammar", run="^TestGrammar$"),
         ],
     ),
 }
